@@ -14,7 +14,8 @@ from concurrent.futures import ThreadPoolExecutor
 
 ROOT = os.path.dirname(os.path.dirname(os.path.abspath(__file__)))
 REPO = os.environ.get('VERIF_REPO', '/repo')
-BUILD = os.path.join(ROOT, 'build')
+BUILD = os.environ.get('VERIF_BUILD', os.path.join(ROOT, 'build'))
+FAST = os.environ.get('VERIF_FAST') == '1'      # sensitivity runs: one unshrunk replay per class
 sys.path.insert(0, os.path.join(ROOT, 'tools'))
 from catalogue import ENGINES, PROPS   # noqa: E402
 
@@ -323,13 +324,13 @@ def check(prop, tier, seed, tlimit, jobs, keep=False):
         c = v['cls_name']
         per_class.setdefault(c, 0)
         k = match_known(known, prop, c, v['msg'])
-        limit = 1 if (k or v['cls'] >= 900) else 3
+        limit = 1 if (k or v['cls'] >= 900 or FAST) else 3
         if per_class[c] >= limit:
             continue
         per_class[c] += 1
         exe = v['exe']
         rp = os.path.join(ROOT, 'replays', '%s-%s-%d-%d.replay' % (prop, os.path.basename(exe), seed, v['index']))
-        r = subprocess.run([exe, 'shrink', prop, str(seed), str(v['index']), rp],
+        r = subprocess.run([exe, 'shrink', prop, str(seed), str(v['index']), rp] + (['--no-shrink'] if FAST else []),
                            capture_output=True, text=True)
         out = r.stdout.strip().splitlines()
         if r.returncode != 0:
@@ -404,7 +405,9 @@ def check(prop, tier, seed, tlimit, jobs, keep=False):
         'build_s': round(build_s, 2), 'run_s': round(run_s, 2),
         'infrastructure_errors': infra,
     }
-    with open(os.path.join(ROOT, 'evidence', prop + '.json'), 'w') as f:
+    evdir = os.path.join(BUILD, 'evidence_fast') if FAST else os.path.join(ROOT, 'evidence')
+    os.makedirs(evdir, exist_ok=True)
+    with open(os.path.join(evdir, prop + '.json'), 'w') as f:
         json.dump(ev, f, indent=1)
     log('%s %s: %d runs in %.1fs (%d/h), %d distinct non-trivial, %d violations, %d known, infra=%d'
         % (prop, tier, runs, run_s, ev['coverage']['simulated_runs_per_hour'], distinct, n_viol,
